@@ -84,7 +84,7 @@ func runC01(rc *RunCtx) {
 		ln.AmbiguousPct = 20
 	}
 	fee := []uint{0, 0, 100, 1000}[T.Choose("cfg.fee", 4)]
-	rc.S.Policy = T.Choose("cfg.policy", 2)
+	rc.S.Policy = T.Choose("cfg.policy", 3)
 	rc.NewMintWorld(ln, MintOpts{Fee: fee})
 	m := NewMW(rc, "A")
 	m.Locks = true
